@@ -69,7 +69,7 @@ CLAIMED = {
              "searches are first-match from begin() and remove erases exactly the found iterator; (R5) all PDUOption members "
              "use one inline/heap predicate; (R6) IPv6 extension headers announce exactly the bytes written (found and fixed "
              "the 7-mod-8 length defect); (R7) element-parsing loops continue while one element's fixed part fits (17 loops); "
-             "(R8) a serialiser that edits list elements for the wire image restores them from a saved copy. (R9) the offset the 802.11 management subtype parsers skip (management_frame_size()) has the same symbolic size form as Dot11ManagementFrame::header_size() on every cell (fourth address included). (R10) option-backed accessors with scalar, address or flat-record values (32 pairs: DHCP, DHCPv6, TCP, ICMPv6, 802.11 management): E-BITS composes setter and getter through a model of the option list (construct / add / search / data_ptr / data_size) and interprets the library's own swaps and converter templates - the getter returns the stored value bit for bit; string-, vector- and container-valued options are not decided. (R11) DHCP rewrites its option area from options_ whenever there are options (no size-equality cache test); RSNInformation writes in front of each suite list that list's own size().",
+             "(R8) a serialiser that edits list elements for the wire image restores them from a saved copy. (R9) the offset the 802.11 management subtype parsers skip (management_frame_size()) has the same symbolic size form as Dot11ManagementFrame::header_size() on every cell (fourth address included). (R10) option-backed accessors with scalar, address or flat-record values (32 pairs: DHCP, DHCPv6, TCP, ICMPv6, 802.11 management): E-BITS composes setter and getter through a model of the option list (construct / add / search / data_ptr / data_size) and interprets the library's own swaps and converter templates - the getter returns the stored value bit for bit; string-, vector- and container-valued options are not decided. (R11) DHCP rewrites its option area from options_ whenever there are options (no size-equality cache test); RSNInformation writes in front of each suite list that list's own size(). (R12) the 802.11 Country decoder accepts the single pad octet its encoder adds for an even number of triplets.",
         note="NOT decided: the shadow-model clause over arbitrary edit histories, codecs that use pointer arithmetic or "
              "containers instead of cursors (shape not comparable), variable-length tails, DNS names, ICMPv6 option length "
              "units for payloads the caller did not pad, value ranges.",
